@@ -19,11 +19,12 @@ type ExploreSpec struct {
 	// After is called after each execution (outside the scheduler) with the
 	// outcome (may be "" if the execution did not complete) and may amend it,
 	// e.g. with file contents. Optional.
-	After    func(outcome string, r *verifrt.Result) string
-	Before   func() // reset external state (files) before each execution
-	MaxExecs int    // budget; 0 = 20000
-	MaxSteps int
-	Trace    bool
+	After     func(outcome string, r *verifrt.Result) string
+	Before    func() // reset external state (files) before each execution
+	MaxExecs  int    // budget; 0 = 20000
+	MaxSteps  int
+	StallSecs int
+	Trace     bool
 }
 
 type ExploreResult struct {
@@ -69,14 +70,26 @@ func Explore(spec ExploreSpec) *ExploreResult {
 	}
 	res := &ExploreResult{Outcomes: map[string]int{}, Witness: map[string][]int{}, Faults: map[string]int{}, FaultAt: map[string][]int{}, Exhaustive: true, BoundDone: -1}
 	expanded := map[uint64]bool{}
-	stack := [][]int{nil}
+	// a pending alternative shares its parent execution's choice list: prefix = base[:n] + [alt]
+	type pending struct {
+		base []int
+		n    int
+		alt  int
+	}
+	stack := []pending{{nil, 0, -1}}
 	for len(stack) > 0 {
 		if res.Execs >= spec.MaxExecs {
 			res.Exhaustive = false
 			break
 		}
-		prefix := stack[len(stack)-1]
+		pd := stack[len(stack)-1]
 		stack = stack[:len(stack)-1]
+		var prefix []int
+		if pd.alt >= 0 {
+			prefix = make([]int, pd.n+1)
+			copy(prefix, pd.base[:pd.n])
+			prefix[pd.n] = pd.alt
+		}
 		if spec.Before != nil {
 			spec.Before()
 		}
@@ -85,7 +98,7 @@ func Explore(spec ExploreSpec) *ExploreResult {
 		r := verifrt.Run(func() {
 			outcome = spec.Body()
 			completed = true
-		}, verifrt.RunConfig{Prefix: prefix, MaxSteps: spec.MaxSteps, Trace: spec.Trace,
+		}, verifrt.RunConfig{Prefix: prefix, MaxSteps: spec.MaxSteps, Trace: spec.Trace, StallSecs: spec.StallSecs,
 			Seen: func(step int, key uint64, nopts int) bool { return expanded[key] }})
 		res.Execs++
 		res.Transitions += int64(r.Steps)
@@ -108,10 +121,7 @@ func Explore(spec ExploreSpec) *ExploreResult {
 			expanded[r.Keys[i]] = true
 			res.Branchings++
 			for alt := r.NOpts[i] - 1; alt >= 1; alt-- {
-				np := make([]int, i+1)
-				copy(np, r.Choices[:i])
-				np[i] = alt
-				stack = append(stack, np)
+				stack = append(stack, pending{r.Choices, i, alt})
 			}
 		}
 		sched := append([]int{}, r.Choices...)
@@ -130,7 +140,11 @@ func Explore(spec ExploreSpec) *ExploreResult {
 			if res.HorizonAt == nil {
 				res.HorizonAt = sched
 			}
-			continue
+			// Non-termination is established by the first overrun of a generous horizon, and every
+			// further execution of this configuration would cost a full horizon: stop here.
+			res.Exhaustive = false
+			res.States = int64(len(expanded))
+			return res
 		case r.Fault != nil:
 			t := ""
 			if r.Fault.Exit {
